@@ -241,6 +241,9 @@ def worker(ctx):
                     continue
             warnings = [(os.path.basename(f), int(ln), tok, msg) for f, ln, tok, msg in WARN_RE.findall(buf.getvalue())]
             res.count("lint_runs")
+            if n_warn > 0 and not warnings and "warning" not in buf.getvalue():
+                res.inconclusive.append("lint() reports warnings but nothing recognisable was printed (diagnostic format changed?)")
+                continue
             if n_warn != len(warnings):
                 res.violation("lint-count", f"lint() returned {n_warn} but printed {len(warnings)} warnings", {**wit, "stderr": buf.getvalue()[-600:]})
             if mode in ("conforming", "valid-twin"):
